@@ -228,9 +228,25 @@ pub async fn server_main(
     respond: bool,
     extra_calls: usize,
 ) {
+    server_main_with_state(net, builder, spawner, drv, handlers, respond, extra_calls, shared(None)).await
+}
+
+/// As `server_main`; additionally hands out the connection's shared state for inspection.
+#[allow(clippy::too_many_arguments)]
+pub async fn server_main_with_state(
+    net: Net,
+    builder: h3::server::Builder,
+    spawner: Spawner,
+    drv: Shared<DriverObs>,
+    handlers: Shared<Vec<Shared<MsgObs>>>,
+    respond: bool,
+    extra_calls: usize,
+    state_out: Shared<Option<std::sync::Arc<h3::SharedState>>>,
+) {
     let mut conn: SrvConn = match builder.build(SimConn::new(&net, SERVER)).await {
         Ok(c) => {
             drv.borrow_mut().build = "ok".into();
+            *state_out.borrow_mut() = Some(c.inner.shared.clone());
             c
         }
         Err(e) => {
@@ -238,7 +254,6 @@ pub async fn server_main(
             return;
         }
     };
-    let _ = &mut builder;
     let mut after_end = 0;
     loop {
         match conn.accept().await {
